@@ -86,10 +86,26 @@ class TolerantLock:
         self.release()
 
 
+HANDLE_MODES = ("fresh", "one", "two")
+
+
 class Backend:
-    def __init__(self, flavour, tolerant_lock=True):
+    """`handles` says which graph-handle OBJECT serves a request (the wire protocol and the models only name the graph id -
+    in the models a handle is the graph id and nothing else):
+      "fresh" - a new handle object per call (nothing a handle remembers can survive a call);
+      "one"   - one handle object per graph id, made at first use and kept for the whole history (also across failing calls,
+                delete_graph, delete_all_graphs and re-imports of the id);
+      "two"   - two such objects per graph id; which of them serves request number k (and which one is handed to
+                merge_nodes / find_matching_nodes as the other graph) is a function of (hseed, k) only, so a prefix of a
+                history replays the same choices; the object clone_graph returns becomes the second handle of the new id."""
+
+    def __init__(self, flavour, tolerant_lock=True, handles="fresh", hseed=0):
         assert flavour in ("shared", "disjoint")
+        assert handles in HANDLE_MODES
         self.flavour = flavour
+        self.handles, self.hseed = handles, hseed
+        self._h = {}            # graph id -> [handle objects]
+        self.calls = 0          # requests applied so far
         # a fresh singleton for this flavour only (a shared and a disjoint Backend may be alive side by side;
         # two Backends of the same flavour may not)
         if flavour == "shared":
@@ -108,8 +124,40 @@ class Backend:
             self.storage.lock = TolerantLock()
         self.import_keys = None     # optional callable n -> list of node keys for the next import
 
-    def pg(self, g):
+    def fresh(self, g):
         return self.cls(graph_id=g, importer=self.importer)
+
+    def pg(self, g, role=0):
+        """the handle object serving graph id g in the current request (role 1 = the other graph of a two-graph call)"""
+        if self.handles == "fresh":
+            return self.fresh(g)
+        hs = self._h.setdefault(g, [])
+        if not hs:
+            hs.append(self.fresh(g))
+        if self.handles == "one":
+            return hs[0]
+        import random
+        i = 1 if random.Random(self.hseed * 1000003 + self.calls * 7 + role).random() < 0.5 else 0
+        while len(hs) <= i:
+            hs.append(self.fresh(g))
+        return hs[i]
+
+    def adopt(self, g, handle):
+        """a handle object the API itself returned (clone_graph) is kept like one the caller made"""
+        if self.handles == "fresh":
+            return
+        hs = self._h.setdefault(g, [])
+        if self.handles == "one":
+            if not hs:
+                hs.append(handle)
+        elif len(hs) < 2:
+            hs.append(handle)
+        else:
+            hs[1] = handle
+
+    def live_handles(self):
+        """[(graph id, index, handle object)] of the handle objects kept so far"""
+        return [(g, i, h) for g, hs in sorted(self._h.items()) for i, h in enumerate(hs)]
 
     # -- one request ------------------------------------------------------------------
     def apply(self, req):
@@ -117,6 +165,34 @@ class Backend:
             return ["ok", self._do(req)]
         except Exception as e:  # noqa
             return ["err", err_kind(e)]
+        finally:
+            self.calls += 1
+
+    def ask(self, handle, req):
+        """a read-only request (one of QUERIES) served by the given handle object; the other graph of find_matching_nodes
+        is a fresh handle"""
+        try:
+            return ["ok", self._on(handle, req[0], req[2:], other=self.fresh)]
+        except Exception as e:  # noqa
+            return ["err", err_kind(e)]
+
+    def handle_drift(self, queries, only=None):
+        """what a kept handle object answers differently from a fresh handle of the same graph id:
+        [(graph id, handle index, request, kept handle's reply, fresh handle's reply)] over the given read-only
+        requests (`queries(g)` -> requests addressed to g; `only` = the graph ids to look at, default all).  Empty while
+        handles are the graph id and nothing else."""
+        out = []
+        want = {}
+        for g, i, h in self.live_handles():
+            if only is not None and g not in only:
+                continue
+            if g not in want:
+                want[g] = [(q, self.ask(self.fresh(g), q)) for q in queries(g)]
+            for q, b in want[g]:
+                a = self.ask(h, q)
+                if a != b and canon(canon_reply(q[0], a)) != canon(canon_reply(q[0], b)):
+                    out.append((g, i, q, canon_reply(q[0], a), canon_reply(q[0], b)))
+        return out
 
     def _do(self, req):
         op, g = req[0], req[1]
@@ -136,8 +212,11 @@ class Backend:
         if op == "clone":
             r = self.pg(g).clone_graph(new_graph_id=a[0])
             assert r.graph_id == a[0]
+            self.adopt(a[0], r)
             return None
-        pgr = self.pg(g)
+        return self._on(self.pg(g), op, a, other=lambda x: self.pg(x, 1))
+
+    def _on(self, pgr, op, a, other):
         if op == "add_node":
             return pgr.add_node(node_id=a[0], label=a[1], props=_props(a[2]))
         if op == "delete_node":
@@ -159,7 +238,7 @@ class Backend:
         if op == "update_link_properties":
             return pgr.update_link_properties(node_a=a[0], node_b=a[1], kind=a[2], props=dict(a[3]))
         if op == "merge_nodes":
-            return pgr.merge_nodes(node_id=a[0], other_graph=self.pg(a[1]), merge_properties=_props(a[2]))
+            return pgr.merge_nodes(node_id=a[0], other_graph=other(a[1]), merge_properties=_props(a[2]))
         if op == "get_node_properties":
             labels, props = pgr.get_node_properties(node_id=a[0])
             assert len(labels) == 1
@@ -180,7 +259,7 @@ class Backend:
         if op == "check_node_unique":
             return bool(pgr.check_node_unique(label=a[0], name=a[1]))
         if op == "find_matching_nodes":
-            return list(pgr.find_matching_nodes(other_graph=self.pg(a[0])))
+            return list(pgr.find_matching_nodes(other_graph=other(a[0])))
         raise ValueError("unknown op " + op)
 
     # -- observation ------------------------------------------------------------------
